@@ -680,6 +680,42 @@ func (w *walker) closure(s *state, fl *ast.FuncLit) {
 	}
 }
 
+// inlineClosure: the body of a function literal that runs exactly once at a known point (called
+// immediately, or deferred): its items, if it has a single path; ok=false otherwise.
+func (w *walker) inlineClosure(s *state, fl *ast.FuncLit) ([]Item, bool) {
+	sub := &walker{a: w.a, fd: w.fd, sum: w.sum, ver: w.ver, qual: w.qual, nloop: w.nloop}
+	st := s.clone()
+	st.items = nil
+	st.defers = nil
+	outs := sub.block(fl.Body.List, []*state{st})
+	for _, o := range outs {
+		sub.finish(o, nil)
+	}
+	w.nloop = sub.nloop
+	w.loops = append(w.loops, sub.loops...)
+	seen := map[string]bool{}
+	var paths [][]Item
+	for _, p := range sub.finished {
+		k := pathKey(p)
+		if !seen[k] {
+			seen[k] = true
+			paths = append(paths, p)
+		}
+	}
+	switch len(paths) {
+	case 0:
+		return nil, true
+	case 1:
+		if len(outs) == 1 {
+			for v, n := range outs[0].env {
+				s.env[v] = n
+			}
+		}
+		return paths[0], true
+	}
+	return nil, false
+}
+
 // lvalue: the write performed by assigning to e (reads needed to evaluate e are emitted too)
 func (w *walker) lvalue(s *state, e ast.Expr, alsoRead bool) {
 	switch x := unparen(e).(type) {
@@ -855,7 +891,18 @@ func (w *walker) call(s *state, c *ast.CallExpr) []string {
 	// immediately invoked function literal
 	if fl, ok := unparen(c.Fun).(*ast.FuncLit); ok {
 		w.evalArgs(s, c.Args)
-		w.closure(s, fl)
+		if w.dry {
+			w.closure(s, fl)
+			return nil
+		}
+		its, ok := w.inlineClosure(s, fl)
+		if !ok {
+			w.unknown(s, fl.Pos(), "function literal with several paths called in place")
+			return nil
+		}
+		for _, it := range its {
+			w.emit(s, it)
+		}
 		return nil
 	}
 	fn, sel := w.calleeFunc(c.Fun)
